@@ -18,6 +18,7 @@ import (
 	"context"
 	"errors"
 
+	"github.com/olric-data/olric/config"
 	"github.com/olric-data/olric/internal/cluster/partitions"
 	"github.com/olric-data/olric/internal/discovery"
 	"github.com/olric-data/olric/internal/protocol"
@@ -136,7 +137,10 @@ func (dm *DMap) deleteKey(key string) error {
 		// While the partition is being handed over, the key may still live only on
 		// a previous owner. It has to be deleted there too, otherwise it comes back
 		// when that fragment is merged into this one.
-		if len(dm.s.primary.PartitionOwnersByHKey(hkey)) <= 1 {
+		// The same holds for the backup copies: after the primary owner was lost, the
+		// key lives only on the backup owners until the balancer moves it.
+		if len(dm.s.primary.PartitionOwnersByHKey(hkey)) <= 1 &&
+			dm.s.config.ReplicaCount <= config.MinimumReplicaCount {
 			return nil
 		}
 	}
